@@ -14,7 +14,7 @@ from autobean_refactor import token_store as ts
 import docs, intro, storehist
 from common import enc_text
 
-STR = ['', 'x', 'a b', 'q"uote', 'back\\slash', 'two\nlines', 'é', 'l1\nl2\nl3']
+STR = ['', 'x', 'a b', 'q"uote', 'back\\slash', 'two\nlines', 'é', 'l1\nl2\nl3', 'a\nbb\nccc\ndddd', 'tail\n', '\n\nhead', 'p\nq']
 
 
 RELEX = {'EscapedString', 'BlockComment', 'InlineComment', 'Date', 'Number', 'Account', 'Currency', 'Tag', 'Link', 'MetaKey', 'Bool',
@@ -132,7 +132,9 @@ def run(ctx, ndocs, nassign, lfs, prefix, with_model=True, judge=('C02', 'C08'))
                 if not cands:
                     break
                 # sequences on one token matter (multi-line -> multi-line with another line count ...): re-pick an edited token often
-                t = rng.choice(edited) if edited and rng.random() < 0.4 else rng.choice(cands)
+                multi = [x for x in edited if '\n' in x.raw_text]
+                # (a token that spans lines and is given another text spanning ANOTHER number of lines is the rare branch)
+                t = rng.choice(multi) if multi and rng.random() < 0.3 else rng.choice(edited) if edited and rng.random() < 0.3 else rng.choice(cands)
                 if not any(t is x for x in edited):
                     edited.append(t)
                 attr, val = rng.choice(domain_assignments(rng, t))
